@@ -71,10 +71,36 @@ def run(ctx: Ctx, rs: RuleSet, tier: str):
                           unparse(h.type) in ('Exception',)
                           for h in t.handlers)
             guarded = catches
+        # the fallback must order the *values* (e.g. by repr), not only
+        # their types: otherwise two unorderable keys of one type tie and the
+        # sorted path list depends on dict insertion order
+        def _expanded(expr, depth=0):
+          # the expression's nodes, following locals to what they hold
+          for n in ast.walk(expr):
+            yield n
+            if isinstance(n, ast.Name) and depth < 3:
+              for s in walk_function(m.node):
+                if isinstance(s, ast.Assign) and any(
+                    isinstance(t, ast.Name) and t.id == n.id
+                    for t in s.targets):
+                  yield from _expanded(s.value, depth + 1)
+
+        def value_dependent(cmp):
+          for c in _expanded(cmp):
+            if isinstance(c, ast.Call) and isinstance(
+                c.func, ast.Name) and c.func.id in ('repr', 'str') and c.args:
+              a0 = c.args[0]
+              if isinstance(a0, ast.Attribute) and a0.attr == fld:
+                return True
+          return False
         fallback = any(isinstance(r, ast.Return) and isinstance(
-            r.value, ast.Compare) and ('repr(' in unparse(r.value) or
-                                       'str(' in unparse(r.value))
+            r.value, ast.Compare) and value_dependent(r.value)
                        for r in walk_function(m.node))
+        # same-type test before the raw comparison (ints vs floats etc. are
+        # ordered by the fallback consistently)
+        same_type = any(isinstance(t, ast.If) and 'type(' in unparse(t.test)
+                        and fld in unparse(t.test)
+                        for t in walk_function(m.node))
         guarded = guarded and fallback
       rs.check(total or guarded, rule, f'{m.qualname}:{fld}',
                f'compares `{fld}: {ty}`' + (
@@ -97,6 +123,28 @@ def run(ctx: Ctx, rs: RuleSet, tier: str):
   rs.check(ok, rule, f'{base.qualname}',
            'different element classes are ordered by class name',
            ctx.loc(base, base.node))
+
+  # ---- internable closure: nested constant tuples
+  rule_i = 'REC.internable-closure'
+  rs.declare(rule_i, 'is_internable treats a tuple as internable only if all '
+             'its elements are, recursively', 1)
+  ii = ctx.func(f'{DAG}.is_internable')
+  self_calls = [c for c in walk_function(ii.node) if isinstance(c, ast.Call)
+                and isinstance(c.func, ast.Name) and c.func.id == ii.name]
+  loops = [n for n in walk_function(ii.node) if isinstance(n, ast.While)]
+  rs.check(bool(self_calls) or bool(loops), rule_i, ii.qualname,
+           'the tuple case descends into nested tuples (self-recursive)'
+           if self_calls or loops else
+           'is_internable no longer descends into nested tuples: a nested '
+           'constant tuple such as ((1, 1), (2, 2)) is then treated as an '
+           'identity-bearing node, and == depends on whether equal constants '
+           'happen to be the same object', ctx.loc(ii, ii.node))
+  used = any(isinstance(c, ast.Call) and unparse(c.func).endswith(
+      'is_internable') for c in walk_function(ctx.func(
+          f'{DAG}.MemoizedTraversal.apply').node))
+  rs.check(used, rule_i, f'{DAG}.MemoizedTraversal.apply:uses',
+           'the un-memoized path of the sharing comparison is selected by '
+           'is_internable', '', nontrivial=False)
 
   # ---- SYM
   rule = 'SYM.compare-buildable'
